@@ -211,6 +211,29 @@ theorem rtOk_imp_relaxed (cfg : Cfg) (mtu : UInt16) (fs : List (List (Nat × Byt
       simp only [C14.rtOk, rtOkRelaxed, Bool.and_eq_true]
       exact fun h => ⟨callOk_imp_relaxed _ _ _ _ h.1, ih _ h.2⟩
 
+/-- the recorded defect `c14_donl_fu` undone on the receiving side: a non-first fragmentation unit
+    (S = 0) carries two stray DONL octets in front of its payload -/
+def stripDonl : Packet → Packet
+  | .fu h false e t d p => .fu h false e t d (p.drop 2)
+  | p => p
+
+/-- the call's packets satisfy C14 once the recorded defect is undone (whatever the cut points) -/
+def callExplained (cfg : Cfg) (units : List Bytes) (o : List C14.PktObs) : Bool :=
+  cfg.addDONL &&
+  match o.mapM (fun p => p.res.toOption) with
+  | none => false
+  | some ps =>
+    ps.all (·.sizesOk) &&
+    (o.zip ps).all (fun (p, v) => encode v.pkt == p.payload && shapeOk cfg.addDONL v.pkt) &&
+    depack none (ps.map (fun v => stripDonl v.pkt)) == some units
+
+/-- every call is fine as it is or explained by the recorded defect -/
+def rtExplained (cfg : Cfg) : List (List (Nat × Bytes)) → List (Option (List C14.PktObs)) → Bool
+  | [], [] => true
+  | f :: fs, some o :: os =>
+    (callOkRelaxed cfg (f.map (·.2)) o || callExplained cfg (f.map (·.2)) o) && rtExplained cfg fs os
+  | _, _ => false
+
 /-- `wf` is exactly the hypothesis of `c14_roundtrip` (`rtWF`): outside it nothing is claimed
     (correspondence only; `rtNoPanic` is evaluated there but does not count) -/
 def rt : Handler :=
@@ -218,6 +241,9 @@ def rt : Handler :=
     (fun i o => if rtWF i.cfg i.mtu i.frames then rtOkRelaxed i.cfg i.frames o else C14.rtNoPanic o)
     (fun i => rtWF i.cfg i.mtu i.frames)
     (fun i _ => if rtKF i.cfg i.mtu i.frames then some "c14_donl_fu" else none)
+    -- a failure inside the region counts as the KNOWN finding also when the bytes differ from the
+    -- model's (other cut points, …), as long as undoing the recorded defect makes the predicate hold
+    (fun i o => rtWF i.cfg i.mtu i.frames && rtExplained i.cfg i.frames o)
 
 /-! ### c08.h265 -/
 
